@@ -1,7 +1,6 @@
 CONSTANTS
   Variant = "ref"
   StopOrders = {0, 1}
-  ProgTab <- Log
 SPECIFICATION TSpec
 CONSTRAINT Progress
 POSTCONDITION Accepted
